@@ -475,6 +475,26 @@ def sym_wire(sym):
     return '%s %d %d %s' % (st, al, k, wl('%d %d' % (mi, deg) for (mi, deg, _) in mods))
 
 
+def fresh_str(x):
+    """a str equal to x that is a different object (never interned)"""
+    y = ''.join(list(x))
+    return y if y is not x else (x + ' ')[:-1]
+
+
+# The chord grammar of the property, written down independently of the library's tables: every kind abbreviation the
+# chord-symbol grammar documents, with the triad its root, 3rd and 5th form.  A table edit in the library that loses or
+# re-reads one of these spellings is then seen by the encode direction (the library-derived grammar follows the table).
+GRAMMAR_KINDS = {
+    'major': ['', 'maj', 'M', '7', 'maj7', 'M7', '6', '9', 'maj9', 'M9', '6/9', '11', 'maj11', 'M11', '13', 'maj13', 'M13'],
+    'minor': ['m', 'min', '-', 'm7', 'min7', '-7', 'mmaj7', 'mM7', 'minmaj7', 'minM7', '-maj7', '-M7', 'm(maj7)', 'm(M7)',
+              'min(maj7)', 'min(M7)', '-(maj7)', '-(M7)', 'm6', 'min6', '-6', 'm9', 'min9', '-9', 'm11', 'min11', '-11',
+              'm13', 'min13', '-13'],
+    'augmented': ['+', 'aug', '+7', 'aug7', '+9', 'aug9'],
+    'diminished': ['o', 'dim', 'o7', 'dim7', 'm7b5', '-7b5', '/o', '/o7'],
+    'other': ['sus2', 'sus', 'sus4', 'sus7', '7sus', 'ped', '5'],
+}
+
+
 def chord_encoders():
     from note_seq import chords_encoder_decoder as ced
     return {'mm': ced.MajorMinorChordOneHotEncoding(), 'tri': ced.TriadChordOneHotEncoding()}
@@ -486,6 +506,9 @@ def chord_requests(chk, rng, add):
     for which, enc in encs.items():
         n = enc.num_classes
         add('chords', which + '_enc_nc', '%s %s' % exc_name(enc.encode_event, ced.NO_CHORD), ('cn', which), hist=which + ':enc-no-chord')
+        # the same symbol as a string that is EQUAL to the constant but not the same object (read from a file / an annotation)
+        add('chords', which + '_enc_nc', '%s %s' % exc_name(enc.encode_event, fresh_str(ced.NO_CHORD)), ('cn-fresh', which),
+            hist=which + ':enc-no-chord-equal-not-identical')
         for i in range(-n - 2, 2 * n + 3):
             r = exc_name(enc.decode_event, i)
             if r[0] == 'err':
@@ -855,10 +878,15 @@ def chord_check(which, obj):
         return None
     fig = obj['symbol']
     if fig == ced.NO_CHORD:
-        j = enc.encode_event(fig)
-        if j != 0 or enc.decode_event(j) != ced.NO_CHORD:
-            return 'NO_CHORD does not round-trip'
+        for f2, how in ((ced.NO_CHORD, 'the constant'), (fresh_str(fig), 'an equal string that is not the constant object')):
+            try:
+                j = enc.encode_event(f2)
+            except Exception as e:  # pylint: disable=broad-except
+                return 'NO_CHORD (%s) is not encoded: %s: %s' % (how, type(e).__name__, e)
+            if j != 0 or enc.decode_event(j) != ced.NO_CHORD:
+                return 'NO_CHORD (%s) does not round-trip' % how
         return None
+    fig = fresh_str(fig)
     root, quality = csl.chord_symbol_root(fig), csl.chord_symbol_quality(fig)
     if 'expect' in obj and [root, quality] != list(obj['expect']):
         try:
@@ -903,6 +931,29 @@ def _oracle_chords(chk, **_):
             seen[ev] = i
             if bad:
                 chk.fail(bad, rep)
+                break
+        # the documented grammar, independent of the library's tables: every kind spelling on every root
+        qual = {'major': csl.CHORD_QUALITY_MAJOR, 'minor': csl.CHORD_QUALITY_MINOR, 'augmented': csl.CHORD_QUALITY_AUGMENTED,
+                'diminished': csl.CHORD_QUALITY_DIMINISHED, 'other': csl.CHORD_QUALITY_OTHER}
+        stop = False
+        for qn, abbrevs in GRAMMAR_KINDS.items():
+            for ab in abbrevs:
+                roots = [(st, al) for st in STEPS for al in ((-2, -1, 0, 1, 2) if chk.thorough else (0, rng.choice([-2, -1, 1, 2])))]
+                for st, al in roots:
+                    chk.count('oracle', None)
+                    chk.count('oracle-chords', None, hist=['documented-grammar:' + qn])
+                    rep = cur(enc='chord', which=which, symbol=st + acc(al) + ab, expect=[(STEP_PC[st] + al) % 12, qual[qn]])
+                    try:
+                        bad = chord_check(which, rep)
+                    except csl.ChordSymbolError as e:
+                        bad = 'chord symbol %r of the documented grammar (kind %r) is rejected: %s' % (rep['symbol'], ab, e)
+                    if bad:
+                        chk.fail(bad, rep)
+                        stop = True
+                        break
+                if stop:
+                    break
+            if stop:
                 break
         syms = ([(s, True) for s in chord_grammar(chk, rng)] + [(s, False) for s in chord_double_alt_symbols(chk, rng)]
                 + [(s, False) for s in chord_mod_symbols(chk, rng)])
